@@ -22,7 +22,7 @@ MIN_NONTRIVIAL = 6
 REQUIRED_COUNTERS = {'c03_advances_checked': 30, 'histories': 16}
 SHARD_TIMEOUT = {'quick': 900, 'thorough': 5400}
 LAYOUTS = ['d1', 'd2', 's1d1', 's1d2', 'd1M1d2', 's2d2', 'd3', 'h1d2',
-           'h1s1d2']
+           'h1s1d2', 'd1s2d2', 'd1s2d2', 's2d2']
 MONITORS = [monitors.c03_green_destinations]
 
 
@@ -47,7 +47,8 @@ def run_shard(spec, acc):
     openers = [None, gen.OPENERS['two_prs_same_base'],
                gen.OPENERS['stab_between_devs'], gen.OPENERS['three_queued'],
                gen.OPENERS['three_queued'],
-               gen.OPENERS['dest_moves_while_open']]
+               gen.OPENERS['dest_moves_while_open'],
+               gen.OPENERS['stab_paths'], gen.OPENERS['stab_paths']]
     if spec['tier'] == 'quick':
         n_hist, jobs, cap = 9, 12, 600
     else:
